@@ -105,6 +105,13 @@ def generate(seed: int, tier: str) -> Dict[str, Any]:
             ops.append({"op": kind, "agent": (r.choice(["a/b", "../esc", "a\\b", "100%", "x/../y"]) if r.chance(0.06) else r.choice(["Ambrose", "Bea", "ü"])), "version": r.choice([str(ver), "v%d" % ver]), "turn": r.choice([0, 1, ver]),
                         "weights": w, "gel": _gel(r), "kill_at": r.randint(0, 40), "applied": r.randint(0, 3),
                         "gel_field": r.choice(["graph", "graph", "gel"])})
+        elif x < 0.62 and any(o["op"] == "write" for o in ops):
+            # an agent snapshots again what it snapshotted before (nothing changed in between): same body, later write - the
+            # directory's latest snapshot is this one all the same
+            ops.append({"op": "clock", "ms": r.choice([5, 1000, 3_600_000])})
+            ops.append(copy.deepcopy(r.choice([o for o in ops if o["op"] == "write"])))
+            if r.chance(0.7):
+                ops.append({"op": "load"})
         elif x < 0.8:
             ops.append({"op": "load"})
         else:
@@ -162,6 +169,7 @@ def execute(p: Dict[str, Any]) -> Dict[str, Any]:
         with E.EngineEnv(root, clock) as ee:
             cfg = {"t4": {"snapshot_dir": ee.snap, "weight_min": lo, "weight_max": hi, "snapshot_every_n_turns": 1}}
             written: Dict[str, Dict[str, Any]] = {}  # file name -> last completed write
+            span: Dict[str, Any] = {}                # file name -> (begin, end) of that write on the simulated wall clock
             for ag in p.get("stale_sidecars") or []:
                 os.makedirs(ee.snap, exist_ok=True)
                 with open(os.path.join(ee.snap, "state_%s.json.meta" % ag.replace("%", "%25")), "w", encoding="utf-8") as fh:
@@ -185,6 +193,7 @@ def execute(p: Dict[str, Any]) -> Dict[str, Any]:
                     fs = SimFS(root, plan=FaultPlan(faults), clock=clock)
                     fs_path_end = ".meta"
                     killed = False
+                    t_begin = int(clock.wall_ns)
                     with fs:
                         try:
                             path = esnap.write_snapshot(ctx, state, op["version"], applied=op["applied"], deltas=[])
@@ -212,6 +221,9 @@ def execute(p: Dict[str, Any]) -> Dict[str, Any]:
                                     pass
                     if k == "write_sidecar_fails":
                         stats["sidecar_faults_fired"] = stats.get("sidecar_faults_fired", 0) + sum(fs.plan.fired.values())
+                    # when the file was (last) written, on the simulated wall clock: a completed write lies inside [begin, end]; after a
+                    # killed one the file is the old or the new one and no claim is made about its age
+                    span[name] = None if killed else (t_begin, int(clock.wall_ns))
                     if killed:
                         # discovery must never pick a temp or sidecar in any power-loss state
                         states, _ex = fs.shadow.crash_states(limit=120, stream=Rng(oi).stream("crash"))
@@ -279,6 +291,15 @@ def execute(p: Dict[str, Any]) -> Dict[str, Any]:
                 if bn not in written:
                     bad("discovery-picked-unknown-file", "op#%d: %r not among %s" % (oi, bn, sorted(written)))
                     continue
+                # "latest" = written last: when one file was written clearly after all the others were finished, it is the one
+                if all(span.get(n) is not None for n in written) and len(written) > 1:
+                    newest = max(written, key=lambda n: span[n][0])
+                    if all(span[newest][0] - span[n][1] >= 1_000_000 for n in written if n != newest):
+                        stats["latest_decidable"] = stats.get("latest_decidable", 0) + 1
+                        if bn != newest:
+                            bad("discovery-picked-older-snapshot", "op#%d: picked %s although %s was written %.3f s after every other file was finished" % (
+                                oi, bn, newest, min(span[newest][0] - span[n][1] for n in written if n != newest) / 1e9))
+                            continue
                 src = written[bn]["op"]
                 ctxs = "op#%d loaded %s (written by %s v=%s)" % (oi, bn, src["agent"], src["version"])
                 stats["loads"] = stats.get("loads", 0) + 1
